@@ -49,3 +49,34 @@ Lemma("C01.halo.slope", lambda S: _halo(S, "spec_slope", _consts("cx", "cy")), p
 Lemma("C01.halo.aspect", lambda S: _halo(S, "spec_aspect", _consts()), props=("C01",), axioms=AX, notes="aspect halo lemma")
 Lemma("C01.halo.curvature", lambda S: _halo(S, "spec_curvature", _consts("cs")), props=("C01",), axioms=AX, notes="curvature halo lemma")
 Lemma("C01.halo.hillshade", lambda S: _halo(S, "spec_hillshade", _consts("az", "alt")), props=("C01",), axioms=AX, notes="hillshade halo lemma")
+
+
+# ---- convolution with a kernel of symbolic (odd) size: block-wise == whole-array, by induction over the recursive window sums.
+# conv_row / conv_win are the spec functions of the (proved) kernel contract of _convolve_2d_numpy.  Base and step of two inductions:
+# (agree) if the block P shows the same cells as A (shifted by the block origin) then the partial sums agree;
+# (nan)   a NaN cell in the window (the NaN padding outside A) makes the partial sum NaN - which is what the whole-array kernel
+#         writes for a cell whose window does not fit.  The induction principle itself is the stated meta-argument.
+def _conv_halo(S):
+    K = S.array("HK", "f", 2)
+    A = S.array("HA", "f", 2)
+    P = S.array("HP", "f", 2)
+    a, p = S.st.heap[A.cell], S.st.heap[P.cell]
+    r, c, dr, dc, n, m, ka, ncols = z3.Ints("hr hc hdr hdc hn hm hka hncols")
+    row = lambda arr, rr, cc, k: S.call("conv_row", K, arr, ka, rr, 0, cc, k).t
+    win = lambda arr, rr, cc, k: S.call("conv_win", K, arr, rr, cc, ncols, k).t
+    rowm = lambda arr, rr, cc: S.call("conv_row", K, arr, m, rr, 0, cc, ncols).t
+    return [
+        ("row.base", [], row(P, r, c, z3.IntVal(0)) == row(A, r + dr, c + dc, z3.IntVal(0))),
+        ("row.step", [n >= 0, row(P, r, c, n) == row(A, r + dr, c + dc, n), p.select([r, c + n]) == a.select([r + dr, c + dc + n])],
+         row(P, r, c, n + 1) == row(A, r + dr, c + dc, n + 1)),
+        ("win.base", [], win(P, r, c, z3.IntVal(0)) == win(A, r + dr, c + dc, z3.IntVal(0))),
+        ("win.step", [m >= 0, win(P, r, c, m) == win(A, r + dr, c + dc, m), rowm(P, r + m, c) == rowm(A, r + dr + m, c + dc)],
+         win(P, r, c, m + 1) == win(A, r + dr, c + dc, m + 1)),
+        ("nan.row.step", [n >= 0, z3.Or(xr.is_nan(row(P, r, c, n)), xr.is_nan(p.select([r, c + n])))], xr.is_nan(row(P, r, c, n + 1))),
+        ("nan.win.step", [m >= 0, z3.Or(xr.is_nan(win(P, r, c, m)), xr.is_nan(rowm(P, r + m, c)))], xr.is_nan(win(P, r, c, m + 1))),
+    ]
+
+
+Lemma("C01.halo.convolution", _conv_halo, props=("C01", "C09"),
+      notes="convolution_2d on a NaN-padded block (depth = kernel half-sizes), trimmed, equals convolution_2d on the whole array: "
+            "base and step of the inductions over the window rows / columns")
